@@ -394,18 +394,24 @@ theorem rel_step (s : State) (sp : Spec) (k : Nat) (h : Rel s sp) :
 structure SpecInv (sp : Spec) : Prop where
   max_eq : sp.max = highest sp.accepted
   nodup : sp.accepted.Nodup
+  no_max : keyIdMax ∉ sp.accepted
 
-theorem specInv_init : SpecInv Spec.init := ⟨rfl, List.nodup_nil⟩
+theorem specInv_init : SpecInv Spec.init := ⟨rfl, List.nodup_nil, fun h => by cases h⟩
 
 theorem specInv_step (sp : Spec) (k : Nat) (h : SpecInv sp) : SpecInv (sp.step k).1 := by
   by_cases hacc : sp.accepts k = true
   · rw [step_accept sp k hacc]
-    refine ⟨?_, ?_⟩
+    have hk := (accepts_iff sp k).1 hacc
+    refine ⟨?_, ?_, ?_⟩
     · show some (sp.newMax k) = highest (k :: sp.accepted)
       unfold highest Spec.newMax
       rw [← h.max_eq]
-    · have := (accepts_iff sp k).1 hacc
-      exact List.nodup_cons.2 ⟨this.2.1, h.nodup⟩
+    · exact List.nodup_cons.2 ⟨hk.2.1, h.nodup⟩
+    · intro hm
+      simp only [List.mem_cons] at hm
+      rcases hm with hm | hm
+      · exact hk.1 hm.symm
+      · exact h.no_max hm
   · rw [step_reject sp k hacc]; exact h
 
 theorem specInv_run (sp : Spec) (ks : List Nat) (h : SpecInv sp) : SpecInv (sp.runState ks) := by
@@ -538,6 +544,47 @@ theorem post_already_iff (s : State) (sp : Spec) (k : Nat) (h : Rel s sp) :
                 have : m - (m - k) = k := by omega
                 rw [this]; exact hmem
               rw [hb] at this; cases this
+
+end Quic.Proofs.DcReplay
+
+namespace Quic.Proofs.DcReplay
+open Quic.Dc.ReplayWindow
+
+theorem highest_mem (l : List Nat) (m : Nat) (h : highest l = some m) : m ∈ l := by
+  induction l generalizing m with
+  | nil => cases h
+  | cons k ks ih =>
+    unfold highest at h
+    cases hk : highest ks with
+    | none =>
+      rw [hk] at h; simp only [Option.some.injEq] at h
+      rw [← h]; exact List.mem_cons_self
+    | some m' =>
+      rw [hk] at h; simp only [Option.some.injEq] at h
+      have hm' := ih m' hk
+      rcases Nat.le_total m' k with hle | hle
+      · have : Nat.max m' k = k := Nat.max_eq_right hle
+        rw [this] at h; rw [← h]; exact List.mem_cons_self
+      · have : Nat.max m' k = m' := Nat.max_eq_left hle
+        rw [this] at h; rw [← h]; exact List.mem_cons_of_mem _ hm'
+
+/-- only offered ids are ever accepted -/
+theorem accepted_subset (s : State) (acc ks : List Nat) :
+    ∀ x ∈ acceptedIds s acc ks, x ∈ acc ∨ x ∈ ks := by
+  induction ks generalizing s acc with
+  | nil => intro x hx; exact Or.inl hx
+  | cons k ks ih =>
+    intro x hx
+    have := ih _ _ x hx
+    rcases this with h | h
+    · by_cases hok : isOk (postAuthentication s k).2 = true
+      · rw [if_pos hok] at h
+        simp only [List.mem_cons] at h
+        rcases h with h | h
+        · right; rw [h]; exact List.mem_cons_self
+        · left; exact h
+      · rw [if_neg hok] at h; left; exact h
+    · right; exact List.mem_cons_of_mem _ h
 
 end Quic.Proofs.DcReplay
 
